@@ -349,6 +349,27 @@ Proof.
   both.
 Qed.
 
+(* ---------- impl/impl.go: opening a channel ---------- *)
+Definition same_open (x : (chid * nret) * nstate) (y : (nret * option chid) * nstate) : Prop :=
+  same_class (snd (fst x)) (fst (fst y)) /\ snd x = snd y /\ (forall k, snd (fst y) = Some k -> fst (fst x) = k).
+
+Ltac finish_open := cbn; unfold same_open, same_class; cbn; repeat split; try reflexivity; try congruence;
+  try (intros ? Hk; inversion Hk; reflexivity).
+
+Theorem open_push_is_source : forall to v b sel s,
+  same_open (run (self <- exec ISelf ;; gen_OpenPushDataChannel self to v b sel) s) (run (open_channel DPush to v b sel) s).
+Proof.
+  intros to v b sel s. unfold gen_OpenPushDataChannel, open_channel, new_request, send, send0.
+  destruct (N.eqb b 0); cbn [g_tid]; repeat step_both; finish_open.
+Qed.
+
+Theorem open_pull_is_source : forall to v b sel s,
+  same_open (run (self <- exec ISelf ;; gen_OpenPullDataChannel self to v b sel) s) (run (open_channel DPull to v b sel) s).
+Proof.
+  intros to v b sel s. unfold gen_OpenPullDataChannel, open_channel, new_request, send, send0.
+  destruct (N.eqb b 0); cbn [g_tid]; repeat step_both; finish_open.
+Qed.
+
 (* ---------- the statements the property files restate ---------- *)
 Definition runs_like (g m : prog nret) : Prop := forall s, same_run (run g s) (run m s).
 
@@ -460,3 +481,10 @@ Proof.
   - apply recv_response_is_source.
   - apply recv_restart_existing_is_source.
 Qed.
+
+(* opening a channel: the id drawn from the counter, the record created before anything is sent, the request
+   over the network (push) or the transport (pull), a failed send failing the channel (C18, C19, C10) *)
+Theorem opening_calls_are_source : forall to v b sel s,
+  same_open (run (self <- exec ISelf ;; gen_OpenPushDataChannel self to v b sel) s) (run (open_channel DPush to v b sel) s) /\
+  same_open (run (self <- exec ISelf ;; gen_OpenPullDataChannel self to v b sel) s) (run (open_channel DPull to v b sel) s).
+Proof. intros to v b sel s. split; [apply open_push_is_source | apply open_pull_is_source]. Qed.
